@@ -53,6 +53,23 @@ def run(ctx):
                 ctx.violation("gen:lost-wakeup", "generation scenario (%d waiters, %s after leaving the critical section): %s" % (n, how, out.strip()[-200:]), [])
         elif rc != 0 or to:
             ctx.violation("gen:%s" % ("hang" if to else "crash"), "generation scenario rc=%s" % rc, [])
+    # first-use scenario: a fresh condition variable per round, its first signal (without the mutex) races its first wait (not logged; watchdog verdict, must repeat)
+    for how, rounds in ([("signal", 30000), ("broadcast", 15000)] if ctx.quick else [("signal", 300000), ("broadcast", 300000)]):
+        cmd = [exe, "fresh", ctx.path("fresh"), "1", how, str(rounds)]
+        rc, out, to = run_driver(cmd, timeout=300)
+        if rc == 4:
+            again = False
+            for _ in range(3):
+                rc2, out2, to2 = run_driver(cmd, timeout=300)
+                if rc2 == 4:
+                    again, out = True, out2
+                    break
+            if again:
+                ctx.violation("fresh:lost-wakeup", "first-use scenario (%s): %s" % (how, out.strip()[-250:]), [])
+        elif rc != 0 or to:
+            rc2, out2, to2 = run_driver(cmd, timeout=300)
+            if rc2 != 0 or to2:
+                ctx.violation("fresh:%s" % ("hang" if to2 else "crash"), "first-use scenario rc=%s: %s" % (rc2, out2[-200:]), [])
     for i, (mode, a) in enumerate(runs):
         base = ctx.path("cv%d" % i)
         cmd = [exe, mode, base] + [str(x) for x in a] + ([str(rng.randint(1, 10 ** 6))] if mode == "pc" else [])
